@@ -38,6 +38,10 @@ OPTION_SETS = [
     {"se": True, "en": True, "mv": "nalgebra"},
     {"bh": True, "mv": "glam", "val": "all"},
     {"en": True, "bh": False, "se": True, "val": "all"},
+    # the same source under narrower capability sets (in shuffled order with the wide ones: a
+    # verdict remembered per source text would leak from one call into the other)
+    {"val": "none"},
+    {"val": "default", "bv": True},
 ]
 
 
